@@ -134,6 +134,9 @@ func c13SnssaiExec(c *core.Ctx, in c13Snssai) {
 	for _, shape := range []c13Snssai{
 		{Sst: in.Sst}, {Sst: in.Sst, HasMapped: true, MappedSst: 0x5A}, {Sst: in.Sst, Sd: in.Sd},
 		{Sst: in.Sst, Sd: in.Sd, HasMapped: true, MappedSst: 0x5A}, {Sst: in.Sst, Sd: in.Sd, HasMapped: true, MappedSst: 0x5A, MappedSd: "0a0b0c"},
+		// mapped part related to the serving part (equal SST, equal SST and SD)
+		{Sst: in.Sst, HasMapped: true, MappedSst: in.Sst}, {Sst: in.Sst, Sd: in.Sd, HasMapped: true, MappedSst: in.Sst},
+		{Sst: in.Sst, Sd: in.Sd, HasMapped: true, MappedSst: in.Sst, MappedSd: in.Sd},
 	} {
 		if (shape.Sd == "") != (in.Sd == "") || (shape.Sd == "" && shape.MappedSd != "") {
 			continue
@@ -435,6 +438,40 @@ func c13Run(c *core.Ctx) {
 			if c.Begin("snssai", "Snssai", in) {
 				c13SnssaiExec(c, in)
 				n++
+			}
+		}
+	}
+	// relations between the serving and the mapped S-NSSAI of one entry (equal, SST equal only, SD equal only): every
+	// SST x SD of the alphabet, as a single entry and between two unrelated entries
+	for sst := 0; sst < 256; sst++ {
+		if !c.Mine(sst) {
+			continue
+		}
+		other := uint8(sst) ^ 0x81
+		for _, sd := range sds {
+			var shapes []c13Snssai
+			if sd == "" {
+				shapes = []c13Snssai{{Sst: uint8(sst), HasMapped: true, MappedSst: uint8(sst)}}
+			} else {
+				osd := "5a6b7c"
+				if sd == osd {
+					osd = "5a6b7d"
+				}
+				shapes = []c13Snssai{
+					{Sst: uint8(sst), Sd: sd, HasMapped: true, MappedSst: uint8(sst)},
+					{Sst: uint8(sst), Sd: sd, HasMapped: true, MappedSst: uint8(sst), MappedSd: sd},
+					{Sst: uint8(sst), Sd: sd, HasMapped: true, MappedSst: uint8(sst), MappedSd: osd},
+					{Sst: uint8(sst), Sd: sd, HasMapped: true, MappedSst: other, MappedSd: sd},
+				}
+			}
+			for _, sh := range shapes {
+				for _, entries := range [][]c13Snssai{{sh}, {{Sst: other}, sh, {Sst: other, Sd: "010203", HasMapped: true, MappedSst: 9}}, {sh, sh}} {
+					in := c13Nssai{Entries: entries}
+					if c.Begin("nssai", "RequestedNssaiToModels", in) {
+						c13NssaiExec(c, in)
+						n++
+					}
+				}
 			}
 		}
 	}
